@@ -543,6 +543,12 @@ def body_spherical(case, ctx):
             np.asarray(A.proj_data).reshape((-1, 2)), H), 1e-13)
         ctx.close("affine_coords of a cx_affine point", np.asarray(A.affine_coords())[..., 0],
                   Z, rtol=1e-13, atol=1e-300)
+        if np.all(np.abs(Z) > 0):
+            # the other chart of the Riemann sphere (around infinity): coordinate 1/z
+            ctx.close("affine_coords(chart_index=1) of a finite non-zero point is 1/z",
+                      np.asarray(A.affine_coords(chart_index=1))[..., 0], 1.0 / Z, rtol=1e-12,
+                      atol=1e-300)
+            ctx.label("chart-at-infinity")
         Rr = np.stack([Z.real, Z.imag], axis=-1)
         B = CP1Point(gen.flavoured(Rr.copy()), coords="real_affine")
         ctx.small("real_affine constructor", O.chordal(
